@@ -5,7 +5,7 @@ ENGINES = [
          kind_free_text="CrossHair 0.0.110 (`crosshair check --report_all`) on contracts in harness/xsplit/contracts.py: symbolic Unicode strings"),
     dict(name="z3-direct", path="harness/q_slurm.py", serves_properties=["C18"],
          kind_free_text="direct z3 sequence/regex queries over unbounded strings generated from the live objects of /repo"),
-    dict(name="jsym", path="jsym/", serves_properties=["C01", "C02", "C03", "C04", "C05", "C06", "C07", "C08", "C09", "C12", "C13", "C14", "C15", "C16", "C17", "C18", "C19", "C20"],
+    dict(name="jsym", path="jsym/", serves_properties=["C01", "C02", "C03", "C04", "C05", "C06", "C07", "C08", "C09", "C10", "C12", "C13", "C14", "C15", "C16", "C17", "C18", "C19", "C20"],
          kind_free_text="own concolic executor on z3: proxy objects for ints/reals/bools, every branch decided by the solver, replay-based DFS to exhaustion, prefix-sharded over 16 processes; real JADE code runs natively"),
 ]
 
@@ -118,5 +118,11 @@ CLAIMS["C08"] = dict(
     note="filelock.SoftFileLock is the marker-file model on the same real files (markers never broken); POSIX append atomicity of one write() is assumed (torn writes outside the claim); crashes belong to C11; more actors than stated are outside the bound.",
     technique="bounded symbolic execution with z3 (jsym): the schedule is a vector of solver variables, exhaustive exploration of interleavings of the real code")
 
+CLAIMS["C10"] = dict(
+    text="H-cluster: a real cluster directory and <=2 (3) handles on <=2 hosts performing solver-chosen sequences of <=4 operations over {deserialize, deserialize+promote, promote, demote, update_job_status, mark_canceled, complete_hpc_job_id, deserialize_jobs}: at most one handle holds the submitter role, promotion fails while another holds it and succeeds when nobody does, a handle whose in-memory config or job-status version differs from the version file gets ConfigVersionMismatch/JobStatusVersionMismatch for every write and all four files are byte-identical afterwards, no mismatch for up-to-date copies. "
+    "K-version: Cluster._serialize/_serialize_jobs for every pair (in-memory version, on-disk version) in 0..5: rejected <=> different, files unchanged when rejected, version+1 and file rewritten when accepted. H-resubmit (shared with C13): resubmit-jobs on an incomplete submission never changes the submitter role held by another process.",
+    note=_HN + " Operations are atomic under the cluster lock, so interleaving is at operation granularity. demote is only issued by a handle that was promoted (as every CLI call site does after the fix d9dd9bb).",
+    technique="bounded symbolic execution with z3 (jsym): solver-chosen operation sequences and version numbers, exhaustive exploration")
+
 _TODO = "check not built yet in this session (planned in DESIGN.md section 6); not claimed until it exists"
-NOT_APPLICABLE = {p: _TODO for p in ["C10", "C11"]}
+NOT_APPLICABLE = {p: _TODO for p in ["C11"]}
